@@ -1,7 +1,506 @@
-//! C16 — not implemented yet.
-use vmon::report::Args;
+//! C16 — scanner results equal a reference query and do not depend on execution knobs.
+//!
+//! Case = one random typed table (1-4 fragments, random storage version, optional deletions) and a
+//! batch of random queries (filter tree, projection, limit/offset, order_by). Each query is run
+//! with default knobs and under random knob combinations; every result is judged against the two
+//! references (own 3VL evaluator, DataFusion over a MemTable); `count_rows` must agree.
 
-pub fn run(_args: &Args) -> i32 {
-    eprintln!("HARNESS-ERROR C16 not implemented");
-    2
+use crate::core::*;
+use lance_encoding::version::LanceFileVersion;
+use serde_json::json;
+use std::cmp::Ordering;
+use std::collections::BTreeSet;
+use std::sync::atomic::{AtomicU64, Ordering as AO};
+use vmon::prng::{fnv_str, Rng};
+use vmon::report::{Args, Report, Tier};
+use vmon::table::IdAlloc;
+
+pub struct Verdict {
+    pub sig: String,
+    pub what: String,
+    pub detail: serde_json::Value,
+}
+
+/// Expected result of a query, computed from the references.
+pub struct Expected {
+    /// matching ids (unordered semantics)
+    pub set: BTreeSet<i64>,
+    /// exact expected sequence when the query is ordered (after offset/limit)
+    pub seq: Option<Vec<i64>>,
+    pub limit: Option<i64>,
+    pub offset: Option<i64>,
+}
+
+impl Expected {
+    /// number of rows the query must return
+    pub fn count(&self) -> usize {
+        let avail = self.set.len().saturating_sub(self.offset.unwrap_or(0).max(0) as usize);
+        match self.limit {
+            Some(l) => avail.min(l.max(0) as usize),
+            None => avail,
+        }
+    }
+}
+
+/// Judge one observed scan against the expectation. None = conforms.
+pub fn judge(out: &ScanOut, exp: &Expected, m: &Model) -> Option<Verdict> {
+    let ids = out.ids();
+    if let Some(d) = dup_id(&ids) {
+        return Some(Verdict {
+            sig: "scan-duplicate-row".into(),
+            what: format!("row id={d} returned twice"),
+            detail: json!({"dup": d}),
+        });
+    }
+    if let Some(msg) = check_values(out, m) {
+        return Some(Verdict {
+            sig: "scan-wrong-cell-value".into(),
+            what: msg.clone(),
+            detail: json!({"mismatch": msg}),
+        });
+    }
+    let got: BTreeSet<i64> = ids.iter().copied().collect();
+    if let Some(seq) = &exp.seq {
+        if &ids != seq {
+            let (extra, missing) = set_diff(&got, &seq.iter().copied().collect());
+            let sig = if extra.is_empty() && missing.is_empty() {
+                "ordered-scan-wrong-order"
+            } else {
+                "ordered-scan-wrong-rows"
+            };
+            return Some(Verdict {
+                sig: sig.into(),
+                what: format!("ordered result differs: got {} rows, expected {}", ids.len(), seq.len()),
+                detail: json!({"got": trunc(&ids, 40), "expected": trunc(seq, 40), "extra": trunc(&extra, 20), "missing": trunc(&missing, 20)}),
+            });
+        }
+        return None;
+    }
+    if exp.limit.is_some() || exp.offset.is_some() {
+        let (extra, _) = set_diff(&got, &exp.set);
+        if !extra.is_empty() {
+            return Some(Verdict {
+                sig: "limit-scan-returns-non-matching-rows".into(),
+                what: format!("{} returned rows do not satisfy the filter", extra.len()),
+                detail: json!({"extra": trunc(&extra, 20)}),
+            });
+        }
+        if ids.len() != exp.count() {
+            return Some(Verdict {
+                sig: "limit-scan-wrong-count".into(),
+                what: format!("limit/offset scan returned {} rows, expected {}", ids.len(), exp.count()),
+                detail: json!({"got": ids.len(), "expected": exp.count(), "matching": exp.set.len()}),
+            });
+        }
+        return None;
+    }
+    if got != exp.set {
+        let (extra, missing) = set_diff(&got, &exp.set);
+        let sig = match (extra.is_empty(), missing.is_empty()) {
+            (false, true) => "scan-extra-rows",
+            (true, false) => "scan-missing-rows",
+            _ => "scan-extra-and-missing-rows",
+        };
+        return Some(Verdict {
+            sig: sig.into(),
+            what: format!("{} extra, {} missing rows vs reference", extra.len(), missing.len()),
+            detail: json!({"extra": trunc(&extra, 20), "missing": trunc(&missing, 20), "got": got.len(), "expected": exp.set.len()}),
+        });
+    }
+    None
+}
+
+pub enum RefOutcome {
+    Ok { ids: BTreeSet<i64>, float_disagree: bool, df_rejected: bool },
+    HarnessError(String),
+}
+
+pub async fn reference(pred: &Pred, sql: &str, m: &Model, df: &DfRef) -> RefOutcome {
+    let a = ref_ids(pred, m);
+    match df.ids_where(sql).await {
+        Err(_) => RefOutcome::Ok { ids: a, float_disagree: false, df_rejected: true },
+        Ok(b) => {
+            if a == b {
+                RefOutcome::Ok { ids: a, float_disagree: false, df_rejected: false }
+            } else if pred.touches_float(&m.cols) {
+                RefOutcome::Ok { ids: b, float_disagree: true, df_rejected: false }
+            } else {
+                let (xa, xb) = set_diff(&a, &b);
+                RefOutcome::HarnessError(format!(
+                    "references disagree on `{sql}`: only-evaluator {:?} only-datafusion {:?}",
+                    trunc(&xa, 5),
+                    trunc(&xb, 5)
+                ))
+            }
+        }
+    }
+}
+
+fn sort_ids(m: &Model, ids: &BTreeSet<i64>, order: &[(usize, bool, bool)]) -> Vec<i64> {
+    let mut v: Vec<i64> = ids.iter().copied().collect();
+    v.sort_by(|x, y| {
+        let rx = &m.rows[x];
+        let ry = &m.rows[y];
+        for (c, asc, nulls_first) in order {
+            let (a, b) = (&rx[*c], &ry[*c]);
+            let o = match (a.is_null(), b.is_null()) {
+                (true, true) => Ordering::Equal,
+                (true, false) => {
+                    if *nulls_first {
+                        Ordering::Less
+                    } else {
+                        Ordering::Greater
+                    }
+                }
+                (false, true) => {
+                    if *nulls_first {
+                        Ordering::Greater
+                    } else {
+                        Ordering::Less
+                    }
+                }
+                (false, false) => {
+                    let o = cmp_cells(&m.cols[*c].ty, a, b).unwrap();
+                    if *asc {
+                        o
+                    } else {
+                        o.reverse()
+                    }
+                }
+            };
+            if o != Ordering::Equal {
+                return o;
+            }
+        }
+        Ordering::Equal
+    });
+    v
+}
+
+pub struct BuiltTable {
+    pub ds: lance::Dataset,
+    pub model: Model,
+    pub desc: String,
+}
+
+/// Random table written to memory://, optionally with deleted rows.
+pub async fn build_table(
+    rng: &mut Rng,
+    tag: &str,
+    pool: &[ColTy],
+    max_rows: usize,
+    versions: &[LanceFileVersion],
+) -> Result<BuiltTable, String> {
+    let ncols = rng.urange(2, 6);
+    let spec = random_spec(rng, pool, ncols);
+    let nfrag = rng.urange(1, 4);
+    let total = rng.urange(10, max_rows);
+    let mut ids = IdAlloc::new(0);
+    let mut model = Model::new(&spec);
+    let mut frags = vec![];
+    for f in 0..nfrag {
+        let n = if f + 1 == nfrag { (total / nfrag).max(1) + total % nfrag } else { (total / nfrag).max(1) };
+        let b = spec.batch(rng, &ids.take(n));
+        model.insert_batch(&b);
+        frags.push(b);
+    }
+    let version = *rng.pick(versions);
+    let max_rows_per_file = if rng.chance(1, 4) { Some(rng.urange(5, total.max(6))) } else { None };
+    let max_rows_per_group = if rng.chance(1, 2) { Some(*rng.pick(&[3usize, 8, 32, 100, 1024])) } else { None };
+    let uri = unique_uri(tag);
+    let mut ds = write_table(&uri, &frags, version, max_rows_per_file, max_rows_per_group, rng.chance(1, 4))
+        .await
+        .map_err(|e| format!("write: {e}"))?;
+    let mut deleted = 0;
+    if rng.chance(1, 3) {
+        let all: Vec<i64> = model.rows.keys().copied().collect();
+        let k = rng.urange(1, (all.len() / 4).max(1));
+        let victims: Vec<i64> = rng.sample_indices(all.len(), k).into_iter().map(|i| all[i]).collect();
+        let list = victims.iter().map(|v| v.to_string()).collect::<Vec<_>>().join(",");
+        ds.delete(&format!("id IN ({list})")).await.map_err(|e| format!("delete: {e}"))?;
+        for v in &victims {
+            model.rows.remove(v);
+        }
+        deleted = victims.len();
+    }
+    let desc = format!(
+        "rows={} frags={} deleted={} v={} [{}]",
+        model.len(),
+        ds.get_fragments().len(),
+        deleted,
+        storage_version_name(version),
+        spec.describe()
+    );
+    Ok(BuiltTable { ds, model, desc })
+}
+
+fn all_cols(m: &Model) -> Vec<usize> {
+    (0..m.cols.len()).filter(|c| class_of(&m.cols[*c].ty) != Class::Other).collect()
+}
+
+pub fn run(args: &Args) -> i32 {
+    let selftest = args.extra.contains_key("selftest");
+    let report = Report::new(
+        args,
+        "exploration",
+        "case = (random typed table, random filter tree / projection / limit / offset / order_by) run under default and random knob combinations; \
+         distinct = hash(column types, predicate shape, query shape); non-trivial = the filter selects neither 0 nor all rows (others are executed and counted too)",
+        (70, 900),
+    )
+    .with_min_nontrivial(20);
+    let threads = 16usize;
+    let max_cases: u64 = args.tier.pick(4000, 400_000);
+    let queries_per_table = args.tier.pick(24, 60);
+    let max_rows = args.tier.pick(300, 1500);
+    let next = AtomicU64::new(0);
+    let selftest_fired = AtomicU64::new(0);
+    let selftest_total = AtomicU64::new(0);
+    let versions = [
+        LanceFileVersion::V2_0,
+        LanceFileVersion::V2_0,
+        LanceFileVersion::V2_1,
+        LanceFileVersion::V2_1,
+        LanceFileVersion::Legacy,
+        LanceFileVersion::V2_2,
+    ];
+
+    run_threads(threads, |_t, rt| {
+        loop {
+            let case = next.fetch_add(1, AO::Relaxed);
+            if case >= max_cases || !report.time_left() {
+                break;
+            }
+            let mut rng = Rng::for_case(args.seed, case);
+            rt.block_on(async {
+                let tbl = match build_table(&mut rng, "c16", &query_pool(), max_rows, &versions).await {
+                    Ok(t) => t,
+                    Err(e) => {
+                        report.harness_error(&format!("case {case}: table setup failed: {e}"));
+                        return;
+                    }
+                };
+                report.count("tables", 1);
+                let m = &tbl.model;
+                let df = match DfRef::new(m.to_batch()) {
+                    Ok(d) => d,
+                    Err(e) => {
+                        report.harness_error(&format!("case {case}: datafusion reference: {e}"));
+                        return;
+                    }
+                };
+                // unfiltered scan must equal the model
+                {
+                    let q = Query::default();
+                    match run_scan(&tbl.ds, &q, &Knobs::default()).await {
+                        Ok(out) => {
+                            let exp = Expected { set: m.rows.keys().copied().collect(), seq: None, limit: None, offset: None };
+                            report.count("rows_compared", out.rows.len() as u64);
+                            if let Some(v) = judge(&out, &exp, m) {
+                                report.violation(
+                                    &format!("full-{}", v.sig),
+                                    &v.what,
+                                    json!({"seed": args.seed, "case": case, "table": tbl.desc, "detail": v.detail}),
+                                );
+                            }
+                        }
+                        Err(e) => report.harness_error(&format!("case {case}: full scan failed: {e:?}")),
+                    }
+                }
+                let gen = PredGen::new(
+                    m,
+                    GenCfg { cols: all_cols(m), focus: vec![], max_depth: 3, hostile_literals: true, allow_colcmp: true },
+                );
+                for qi in 0..queries_per_table {
+                    if !report.time_left() {
+                        break;
+                    }
+                    let pred = gen.gen_top(&mut rng);
+                    let sql = pred.sql(&m.cols);
+                    let (ids, float_disagree) = match reference(&pred, &sql, m, &df).await {
+                        RefOutcome::Ok { ids, float_disagree, df_rejected } => {
+                            if df_rejected {
+                                report.count("datafusion_ref_rejected", 1);
+                            }
+                            (ids, float_disagree)
+                        }
+                        RefOutcome::HarnessError(e) => {
+                            report.harness_error(&format!("case {case} q{qi}: {e} table {}", tbl.desc));
+                            continue;
+                        }
+                    };
+                    if float_disagree {
+                        report.count("float_special_decided_by_datafusion", 1);
+                    }
+                    // query shape
+                    let mut q = Query { filter: Some(sql.clone()), ..Default::default() };
+                    let mut fc = BTreeSet::new();
+                    pred.columns(&mut fc);
+                    q.filter_cols = fc.iter().map(|c| m.cols[*c].name.clone()).collect();
+                    if rng.chance(1, 2) {
+                        let mut cols: Vec<String> =
+                            m.cols.iter().skip(1).filter(|_| rng.bool()).map(|c| c.name.clone()).collect();
+                        cols.push("id".into());
+                        rng.shuffle(&mut cols);
+                        q.projection = Some(cols);
+                    }
+                    let mut order_idx: Option<Vec<(usize, bool, bool)>> = None;
+                    if rng.chance(1, 4) {
+                        let sortable = all_cols(m);
+                        let c = *rng.pick(&sortable);
+                        let o = vec![(c, rng.bool(), rng.bool()), (0usize, rng.bool(), true)];
+                        q.order = Some(o.iter().map(|(c, a, n)| (m.cols[*c].name.clone(), *a, *n)).collect());
+                        if let Some(p) = &mut q.projection {
+                            // ordering columns need not be projected; keep both variants
+                            if rng.bool() && !p.contains(&m.cols[c].name) {
+                                p.push(m.cols[c].name.clone());
+                            }
+                        }
+                        order_idx = Some(o);
+                    }
+                    if rng.chance(1, 3) {
+                        q.limit = if rng.chance(4, 5) { Some(rng.range(0, (ids.len() as i64 + 3).max(1))) } else { None };
+                        q.offset = if rng.chance(1, 2) { Some(rng.range(0, (ids.len() as i64 + 2).max(1))) } else { None };
+                    }
+                    let seq = order_idx.as_ref().map(|o| {
+                        let sorted = sort_ids(m, &ids, o);
+                        let off = q.offset.unwrap_or(0) as usize;
+                        let it = sorted.into_iter().skip(off);
+                        match q.limit {
+                            Some(l) => it.take(l as usize).collect::<Vec<_>>(),
+                            None => it.collect(),
+                        }
+                    });
+                    let exp = Expected { set: ids.clone(), seq, limit: q.limit, offset: q.offset };
+                    let nontrivial = !ids.is_empty() && ids.len() < m.len();
+                    let qshape = format!(
+                        "{}|p{}|l{}{}|o{}",
+                        pred.shape(&m.cols),
+                        q.projection.as_ref().map(|p| p.len()).unwrap_or(99),
+                        q.limit.is_some() as u8,
+                        q.offset.is_some() as u8,
+                        order_idx.as_ref().map(|o| format!("{:?}{}{}", m.cols[o[0].0].ty, o[0].1, o[0].2)).unwrap_or_default()
+                    );
+                    let witness = |knobs: &Knobs, detail: serde_json::Value| {
+                        json!({"seed": args.seed, "case": case, "query_index": qi, "table": tbl.desc, "filter": sql,
+                               "projection": q.projection, "limit": q.limit, "offset": q.offset, "order": q.order,
+                               "knobs": knobs.describe(), "detail": detail})
+                    };
+                    // knob combinations: default + 2 random
+                    let mut knob_sets = vec![Knobs::default()];
+                    for _ in 0..2 {
+                        knob_sets.push(Knobs::random(&mut rng));
+                    }
+                    let mut base_rejected: Option<bool> = None;
+                    let mut executed = false;
+                    for (ki, knobs) in knob_sets.iter().enumerate() {
+                        match run_scan(&tbl.ds, &q, knobs).await {
+                            Ok(mut out) => {
+                                report.count("scans", 1);
+                                report.count("rows_compared", out.rows.len() as u64);
+                                if ki > 0 {
+                                    report.count("knob_combinations", 1);
+                                }
+                                if base_rejected == Some(true) {
+                                    report.count("rejection_depends_on_knobs", 1);
+                                }
+                                base_rejected.get_or_insert(false);
+                                executed = true;
+                                if selftest {
+                                    // corrupt the observation: drop the last returned row
+                                    if out.rows.pop().is_some() {
+                                        selftest_total.fetch_add(1, AO::Relaxed);
+                                        if judge(&out, &exp, m).is_some() {
+                                            selftest_fired.fetch_add(1, AO::Relaxed);
+                                        }
+                                    }
+                                    continue;
+                                }
+                                if let Some(v) = judge(&out, &exp, m) {
+                                    let sig = if ki == 0 { v.sig.clone() } else { format!("knobs-{}", v.sig) };
+                                    report.violation(&sig, &v.what, witness(knobs, v.detail));
+                                }
+                            }
+                            Err(ScanErr::Rejected(e)) => {
+                                if base_rejected == Some(false) {
+                                    report.count("rejection_depends_on_knobs", 1);
+                                }
+                                if ki == 0 {
+                                    base_rejected = Some(true);
+                                    report.rejected();
+                                    if report.counter("rejected_samples") < 3 {
+                                        report.count("rejected_samples", 1);
+                                        report.sample(json!({"rejected_filter": sql, "error": e.chars().take(200).collect::<String>()}));
+                                    }
+                                }
+                            }
+                            Err(ScanErr::Failed(e)) => {
+                                if !selftest {
+                                    report.violation(
+                                        "scan-failed-on-accepted-query",
+                                        &format!("scan failed: {}", e.chars().take(300).collect::<String>()),
+                                        witness(knobs, json!({"error": e})),
+                                    );
+                                }
+                            }
+                            Err(ScanErr::Timeout) => report.inconclusive(&format!("case {case} q{qi}: scan timed out ({})", knobs.describe())),
+                        }
+                    }
+                    // count_rows
+                    if executed && !selftest {
+                        let ck = Knobs::random(&mut rng);
+                        match run_count(&tbl.ds, &q, &ck).await {
+                            Ok(n) => {
+                                report.count("count_rows_checked", 1);
+                                if n as usize != ids.len() {
+                                    report.violation(
+                                        "count-rows-differs-from-result",
+                                        &format!("Scanner::count_rows = {n}, reference/result = {}", ids.len()),
+                                        witness(&ck, json!({"count": n, "expected": ids.len()})),
+                                    );
+                                }
+                            }
+                            Err(ScanErr::Rejected(_)) => {}
+                            Err(ScanErr::Failed(e)) => {
+                                report.violation("count-rows-failed", &e.chars().take(300).collect::<String>(), witness(&ck, json!({"error": e})));
+                            }
+                            Err(ScanErr::Timeout) => report.inconclusive("count_rows timed out"),
+                        }
+                        match guarded(tbl.ds.count_rows(Some(sql.clone()))).await {
+                            Ok(n) => {
+                                if n != ids.len() {
+                                    report.violation(
+                                        "dataset-count-rows-differs-from-result",
+                                        &format!("Dataset::count_rows = {n}, reference/result = {}", ids.len()),
+                                        witness(&Knobs::default(), json!({"count": n, "expected": ids.len()})),
+                                    );
+                                }
+                            }
+                            Err(ScanErr::Failed(e)) => {
+                                report.violation("count-rows-failed", &e.chars().take(300).collect::<String>(), witness(&Knobs::default(), json!({"error": e})));
+                            }
+                            _ => {}
+                        }
+                    }
+                    report.case(if executed && nontrivial { Some(fnv_str(&qshape)) } else { None });
+                    if executed {
+                        report.count(if nontrivial { "selective_predicates" } else { "trivial_predicates" }, 1);
+                        if nontrivial && report.want_sample() && rng.chance(1, 40) {
+                            report.sample(json!({"table": tbl.desc, "filter": sql, "matching": ids.len(), "rows": m.len(),
+                                "projection": q.projection, "limit": q.limit, "offset": q.offset, "order": q.order,
+                                "knobs": knob_sets.iter().map(|k| k.describe()).collect::<Vec<_>>() }));
+                        }
+                    }
+                }
+            });
+        }
+    });
+    if selftest {
+        let (f, t) = (selftest_fired.load(AO::Relaxed), selftest_total.load(AO::Relaxed));
+        println!("SELFTEST C16 oracle fired on {f} of {t} corrupted observations");
+        return if t > 0 && f == t { 0 } else { 2 };
+    }
+    if args.tier == Tier::Thorough {
+        report.set("tier_note", json!("thorough: larger tables, more queries per table"));
+    }
+    report.finish()
 }
